@@ -24,7 +24,7 @@ vals = {
     "LEANLINES": "%.1f" % (lines("lean/EupsModel/**/*.lean") / 1000.0), "PYLINES": "%.1f" % (lines("harness/*.py") / 1000.0),
     "FIXES": fixes, "NSEEDS": len(ids),
     "R3B_FIRST": sum(1 for i in r3b if caught(first.get(i))), "R3B_FINAL": sum(1 for i in r3b if caught(res.get(i))),
-    "CAUGHT": sum(1 for i in ids if caught(res.get(i))),
+    "CAUGHT": sum(1 for i in ids if caught(res.get(i)) and res[i].get("demo_exit_patched", 1) == 1),
     "MISSED": sum(1 for i in ids if res.get(i) and res[i].get("applies") and res[i].get("demo_exit_patched") == 1 and not caught(res[i])),
     "THOROUGH": re.search(r'"thorough": (\d+)', open(os.path.join(HERE, "check")).read()).group(1),
 }
